@@ -560,6 +560,9 @@ impl Prop for C17 {
         vec!["an orderer without an error channel (returns Vec) violates the cycle clause whenever it returns at all on a cyclic graph".into(),
              "tetris orderers: Library::dep_order, the cell order of the tetris ProtoExporter (CellOrder) and Placer::place (which orders cells, then instances via PlaceOrder; instance-relation cycles are C09's cyclic generator)".into()]
     }
+    fn miri_gen(&self) -> Option<&'static str> {
+        Some("embedded-dag")
+    }
     fn plan(&self, tier: Tier) -> Vec<GenSpec> {
         vec![
             GenSpec::enumerated("generic-4", 1024),
